@@ -306,7 +306,7 @@ func stmtEvents(fd *ast.FuncDecl) []string {
 	ast.Inspect(fd.Body, func(n ast.Node) bool {
 		switch x := n.(type) {
 		case *ast.IncDecStmt:
-			if exprStr(x.X) == "g.vc" && x.Tok == token.INC {
+			if strings.HasSuffix(exprStr(x.X), ".vc") && x.Tok == token.INC {
 				out = append(out, "vc++")
 			}
 		case *ast.CallExpr:
